@@ -40,7 +40,11 @@ ASSUMPTIONS = [
 
 MODES = ["raw-int", "raw-ndarray", "raw-bool", "raw-str", "raw-tuple2",
          "raw-tuple_intarr", "raw-intarr2d", "raw-tuple_strarr",
+         "raw-tuple_empty",
          "ds-2vars", "ds-internal", "ds-xobj", "df", "sampler-df"]
+
+
+PARENTS = ["xyz-result-3.jbdmp", "batches", "xyz-batch-2.jbdmp.d"]
 
 
 def xyz():
@@ -136,6 +140,11 @@ def run_case(case):
     combos, cases, fn_args = inputs(case)
     raw = mode.startswith("raw")
     with core.scratch("xv-c09-") as root:
+        if case.get("parent"):
+            # the crop lives in a folder whose name resembles the library's
+            # own files: where a crop is kept must not matter
+            root = os.path.join(root, case["parent"])
+            os.makedirs(root)
         # ---------------- set up function / farmer
         if raw:
             kind = mode.split("-", 1)[1]
@@ -525,7 +534,9 @@ def enumerate_cases(tier, seed):
                         yield {"B": B, "N": N, "spec": spec,
                                "finished": finished, "shuffle": sh,
                                "mode": mode, "real": real,
-                               "extra_pick": counter % 3}
+                               "extra_pick": counter % 3,
+                               "parent": PARENTS[(counter + m) % 7]
+                               if (counter + m) % 7 < len(PARENTS) else None}
 
 
 PHASES = [
